@@ -68,7 +68,8 @@ def set_bond_orders(
         )
     )
 
-    index_map_num_dict = {i: map_num for i, map_num in enumerate(graph.atoms)}
+    # row / column of an atom in the bond order matrix (order of graph.atoms)
+    map_num_index_dict = {map_num: i for i, map_num in enumerate(graph.atoms)}
 
     map_num_idx_dict = {
         map_num: idx for idx, map_num in idx_map_num_dict.items()
@@ -76,8 +77,8 @@ def set_bond_orders(
 
     for bond in graph.bonds:
         atom1, atom2 = bond
-        bond_order = bond_order_mat[index_map_num_dict[atom1]][
-            index_map_num_dict[atom2]
+        bond_order = bond_order_mat[map_num_index_dict[atom1]][
+            map_num_index_dict[atom2]
         ]
 
         mol.GetBondBetweenAtoms(
